@@ -42,6 +42,10 @@ def table_seeded():
         valid = c.get("demo_exit_unchanged_tree") == 0 and c.get("demo_exit_changed_tree", 0) != 0 and c.get("make_test_with_change", {}).get("scenarios_failed", 1) == 0
         tier = "quick" if det.get("quick_exit") == 1 else ("thorough" if det.get("thorough_exit") == 1 else "**missed**")
         sig = ", ".join(det.get("signatures", [])[:3])
+        oth = det.get("detected_by_other_check")
+        if tier == "**missed**" and oth:
+            tier = "outside this check's bounds/alphabet; %s %s" % (oth["check"], oth["tier"])
+            sig = ", ".join(oth.get("signatures", []))
         need = re.sub(r"\s+", " ", str(m.get("needs_to_manifest", "")))[:160].replace("|", "/")
         fl = m.get("files_changed") or []
         if not fl:
